@@ -79,6 +79,15 @@ class Lin(AbsVal):
         return NotImplemented
 
     def compare(self, it, op, other, reflected):
+        if isinstance(other, MaxOf):
+            # x OP max(items): decided item by item (each decision is a tracked linear assumption)
+            mirror = {ast.Lt: ast.Gt, ast.Gt: ast.Lt, ast.LtE: ast.GtE, ast.GtE: ast.LtE, ast.Eq: ast.Eq, ast.NotEq: ast.NotEq}
+            o2 = mirror[type(op)]() if reflected else op
+            if isinstance(o2, (ast.Gt, ast.GtE)):
+                return all(self.compare(it, o2, x, False) for x in other.items)
+            if isinstance(o2, (ast.Lt, ast.LtE)):
+                return any(self.compare(it, o2, x, False) for x in other.items)
+            return NotImplemented
         o = Lin.of(other)
         if o is None:
             return NotImplemented
@@ -87,6 +96,9 @@ class Lin(AbsVal):
             c = d.const
             return {ast.Eq: c == 0, ast.NotEq: c != 0, ast.Lt: c < 0, ast.LtE: c <= 0, ast.Gt: c > 0, ast.GtE: c >= 0}[type(op)]
         r = decide_by_bounds(d, op)
+        if r is not None:
+            return r
+        r = decide_by_assumptions(it, d, op)
         if r is not None:
             return r
         # symbolic sign: fork, remember the assumption  (d OP 0)
@@ -150,8 +162,11 @@ class MaxOf(AbsVal):
 
     def compare(self, it, op, other, reflected):
         o = Lin.of(other)
-        if o is None or reflected:
+        if o is None:
             return NotImplemented
+        if reflected:
+            mirror = {ast.Lt: ast.Gt, ast.Gt: ast.Lt, ast.LtE: ast.GtE, ast.GtE: ast.LtE, ast.Eq: ast.Eq, ast.NotEq: ast.NotEq}
+            return self.compare(it, mirror[type(op)](), other, False)
         d = MaxOf([x.add(o, -1) for x in self.items])
         r = decide_by_bounds(d, op)
         if r is not None:
@@ -168,6 +183,50 @@ class MaxOf(AbsVal):
         if name in ("__deepcopy__", "__copy__"):
             return self
         return NotImplemented
+
+
+def _interval_of(op: str, res: bool):
+    """Integer interval of d implied by `(d OP 0) == res`."""
+    table = {("Gt", True): (1, None), ("Gt", False): (None, 0), ("GtE", True): (0, None), ("GtE", False): (None, -1),
+             ("Lt", True): (None, -1), ("Lt", False): (0, None), ("LtE", True): (None, 0), ("LtE", False): (1, None),
+             ("Eq", True): (0, 0), ("NotEq", False): (0, 0)}
+    return table.get((op, res), (None, None))
+
+
+def decide_by_assumptions(it, d, op):
+    """The sign decisions already taken on this path for the same linear form (or its negation) may settle a new comparison:
+    contradictory branches are never explored."""
+    lo = hi = None
+    k, nk = d.key(), d.neg().key()
+    for (a, aop, res) in getattr(it, "lin_assumptions", []):
+        if not isinstance(a, Lin):
+            continue
+        if a.key() == k:
+            l2, h2 = _interval_of(aop, res)
+        elif a.key() == nk:
+            l2, h2 = _interval_of(aop, res)
+            l2, h2 = (None if h2 is None else -h2), (None if l2 is None else -l2)
+        else:
+            continue
+        lo = l2 if lo is None else lo if l2 is None else max(lo, l2)
+        hi = h2 if hi is None else hi if h2 is None else min(hi, h2)
+    b = bounds(d)
+    lo = b[0] if lo is None else lo if b[0] is None else max(lo, b[0])
+    hi = b[1] if hi is None else hi if b[1] is None else min(hi, b[1])
+    t = type(op)
+    if t is ast.Gt:
+        return True if lo is not None and lo >= 1 else False if hi is not None and hi <= 0 else None
+    if t is ast.GtE:
+        return True if lo is not None and lo >= 0 else False if hi is not None and hi <= -1 else None
+    if t is ast.Lt:
+        return True if hi is not None and hi <= -1 else False if lo is not None and lo >= 0 else None
+    if t is ast.LtE:
+        return True if hi is not None and hi <= 0 else False if lo is not None and lo >= 1 else None
+    if t is ast.Eq:
+        return True if lo == 0 and hi == 0 else False if (lo is not None and lo >= 1) or (hi is not None and hi <= -1) else None
+    if t is ast.NotEq:
+        return False if lo == 0 and hi == 0 else True if (lo is not None and lo >= 1) or (hi is not None and hi <= -1) else None
+    return None
 
 
 def bounds(x):
